@@ -100,11 +100,13 @@ def make_pypred(real, yp, name, arity, rows, style, yv, log, fault):
         def g(*args):
             yield from body(args)
         return g, arity
-    # fixed signature with `arity` positional parameters
-    params = ','.join('a%d' % i for i in range(arity))
-    ns = {'body': body}
-    exec('def f(%s):\n    yield from body((%s%s))\n' % (params, params, ',' if arity == 1 else ''), ns)
-    return ns['f'], (None if style == 'inferred' else arity)
+    # fixed signature with `arity` positional parameters; the kind of callable varies (plain function, decorated
+    # with functools.wraps, partial, bound method, callable object, ...): all of them have `arity` arguments
+    from ..callables import KINDS, variant
+    kind = KINDS[(fault.get('kind_seed', 0) + arity + len(name)) % len(KINDS)]
+    log_kinds = fault.setdefault('kinds', {})
+    log_kinds[kind] = log_kinds.get(kind, 0) + 1
+    return variant(body, arity, kind), (None if style == 'inferred' else arity)
 
 
 def run_case(ctx, seed, idx, tier):
@@ -208,7 +210,7 @@ def run_case(ctx, seed, idx, tier):
         rargs = [build_real(yp, t, vmap) for t in qargs]
         robs = [build_real(yp, t, vmap) for t in observed]
         return real.answers(yp.query(qname, rargs), robs, diff.MAXANS, diff.engine_bound(refa.steps))
-    nofault = {'events': 0, 'at': None, 'exc': None}
+    nofault = {'events': 0, 'at': None, 'exc': None, 'kind_seed': rng.randrange(9)}
     got_a, st_a, _ = run(False, dict(nofault), [])
     d = diff.compare(exp, got_a, st_a, exp)
     if d and d[0] == 'discard':
@@ -224,6 +226,8 @@ def run_case(ctx, seed, idx, tier):
     if d:
         return viol('mixed_engine_differs:' + d[0], d[1])
     c['python_predicate_calls'] = len(log)
+    for kd, nk in fault.get('kinds', {}).items():
+        c['callable_' + kd] = c.get('callable_' + kd, 0) + nk
     for k in subset:
         c['style_' + styles[k]] = c.get('style_' + styles[k], 0) + 1
     c['order_' + order] = 1
